@@ -325,8 +325,8 @@ class NumpyDataWrapper(SourceDataWrapper):
     def load_chunk(self, start: int, stop: Union[int, None]) -> np.ndarray:
         """Load a chunk of the input data.
 
-        If the target data type (data sets names and dtypes) is the same as the one in the source array,
-        take a slice of the source array directly.
+        If the target data type (data sets names and dtypes) is the same as the one in the source array and every
+        channel takes the data set of its own name, take a slice of the source array directly.
         Otherwise, use the 'load_chunk' from the superclass to copy the relevant data sets into a new structured array.
 
         Args:
@@ -337,7 +337,8 @@ class NumpyDataWrapper(SourceDataWrapper):
             A structured numpy array, containing the required chunks of all the relevant data sets from the source data.
         """
 
-        if self._dtype == self._data_source.dtype:
+        if self._dtype == self._data_source.dtype and all(k == v for k, v in self._mapping.items()):
+            # (same names and dtypes, each channel fed from the data set of its own name)
             if stop is None:
                 stop = self._n_rows
             # start and stop are relative to the row window [from_idx, to_idx)
